@@ -322,7 +322,7 @@ func TestEnumSweep(t *testing.T) {
 	grid := 240
 	mstep := 7
 	if thorough {
-		grid = 15
+		grid = 30
 		mstep = 1
 	}
 	for mask := 1 + shard; mask < 128; mask += nsh {
@@ -353,7 +353,7 @@ func TestEnumSweep(t *testing.T) {
 		}
 	}
 	if thorough {
-		stats.Exhaustive("all 127 non-empty weekday subsets x 15-minute grid of (start,end) x every minute of one week")
+		stats.Exhaustive("all 127 non-empty weekday subsets x 30-minute grid of (start,end) x every minute of one week")
 	}
 	stats.Enumerated(evals, nts, "enumerated")
 	stats.Sample(map[string]any{"enumeration": "A: (start,end) grid stride " + fmt.Sprint(stride) + " at boundary +-1s; B: weekday masks x grid " + fmt.Sprint(grid) + "min x week minutes step " + fmt.Sprint(mstep), "evaluations": evals})
